@@ -1076,6 +1076,25 @@ def run_case(case, prop):
         return r1, viol
 
 
+def directed_cases(prop):
+    """hand-written witnesses of the recorded findings (same runner, same monitors): they keep the
+    KNOWN-FINDING lines on every run and simply pass once a defect is repaired"""
+    km_s = {'cls': 'stringmap', 'type': None, 'flat': True, 'typed': False, 'sentinel': True}
+    out = []
+    if prop in ('C01', 'C02', 'C07', 'C15'):
+        calls = [['call', ['a-b'], {}], ['call', ['a_b'], {}], ['call', ['a-b'], {}], ['call', ['a_b'], {}],
+                 ['call', [1], {}], ['call', ['1'], {}], ['call', [1], {}]]
+        out.append({'cfg': {'algo': 'lru', 'safe': False, 'maxsize': 1, 'maxsize_positional': False, 'purge': False,
+                            'keymap': dict(km_s, cls='picklemap'), 'backend': {'kind': 'dir', 'serialized': True, 'protocol': None}},
+                    'sig': 'x', 'ops': calls, 'seed': 1, 'focus': prop, 'directed': True})
+    if prop == 'C01':
+        out.append({'cfg': {'algo': 'inf', 'safe': False, 'maxsize': None, 'maxsize_positional': False, 'purge': False,
+                            'keymap': km_s, 'backend': {'kind': 'dict_archive'}},
+                    'sig': '*args', 'ops': [['call', [1], {}], ['call', ['1'], {}]], 'seed': 1, 'focus': prop,
+                    'directed': True})
+    return out
+
+
 def run_shard(prop, tier, seed, shard, nshards, opts):
     n_total = opts.get('cases', 3000)
     budget = opts.get('budget_s', 60)
@@ -1085,6 +1104,12 @@ def run_shard(prop, tier, seed, shard, nshards, opts):
     from kv import reach
     mon = reach.Reach()
     mon.start()
+    if shard == 0:
+        for case in directed_cases(prop):
+            r, viol = run_case(case, prop)
+            res['cases'] += 1
+            res['counters']['directed_cases'] = res['counters'].get('directed_cases', 0) + 1
+            res['violations'].extend(viol)
     i = shard
     nt = NONTRIVIAL[prop]
     while i < n_total and time.time() - t0 < budget:
